@@ -1,6 +1,7 @@
 """Module to perform numeric symbolic operations on strings representing numeric expressions."""
 import os
 import re
+from fractions import Fraction
 from typing import Dict, Optional, List, Tuple
 
 from sympy import Eq, Rel, sympify, expand
@@ -51,8 +52,20 @@ def extract_atom(
     :return: the PDDL expression.
     """
     if expression.func in (Rational, Half):
-        # format() of a sympy Rational is not reliable: format(Rational(-7, 8823), ".3f") gives "-0.000".
-        expression = Float(expression)
+        # format() of a sympy Rational is not reliable: format(Rational(-7, 8823), ".3f") gives "-0.000", and a Float
+        # keeps 15 significant digits only: -250000000000000000000/399999 with 5 decimals was printed as
+        # -625001562503906.00000 instead of -625001562503906.25977. The exact value is rounded (half to even).
+        scale = 10 ** int(decimal_digits)
+        scaled_value = round(Fraction(int(expression.p) * scale, int(expression.q)))
+        if scaled_value == 0 and should_remove_trailing_zeros:
+            return None
+
+        if scaled_value % scale == 0:
+            return f"{scaled_value // scale}"
+
+        integer_part, decimal_part = divmod(abs(scaled_value), scale)
+        sign = "-" if scaled_value < 0 else ""
+        return f"{sign}{integer_part}.{decimal_part:0{int(decimal_digits)}d}"
 
     if expression.func == Float:
         rounded_value = round(float(expression), decimal_digits)
